@@ -37,6 +37,9 @@ def main():
         if prop in ("C02", "C14", "C18"):
             import props_simplify
             return props_simplify.run(prop, tier)
+        if prop in ("C15", "C17", "C19"):
+            import props_passes
+            return props_passes.run(prop, tier)
         print("unknown property", prop)
         return 2
     except (common.MachineryError, tlcrun.TLCError) as e:
